@@ -182,10 +182,18 @@ func (c *Ctx) eval(x Expr) CVal {
 		// variables; forbid definitions by switching to inline mode.
 		vars := map[string]CVal{}
 		var decl []string
-		for _, v := range x.Vars {
+		for i, v := range x.Vars {
 			name := e.freshName("q_" + v)
-			vars[v] = CVal{T: Term{name, sInt}}
-			decl = append(decl, "("+name+" Int)")
+			srt := sInt
+			var gt types.Type
+			if i < len(x.Sorts) && x.Sorts[i] != "" {
+				srt = ufSort(x.Sorts[i])
+				if srt == sStr {
+					gt = types.Typ[types.String]
+				}
+			}
+			vars[v] = CVal{T: Term{name, srt}, GT: gt}
+			decl = append(decl, "("+name+" "+srt+")")
 		}
 		sub := c.with(vars)
 		sub.depth = c.depth + 1
@@ -426,6 +434,10 @@ func (c *Ctx) evalCall(x *ECall) CVal {
 		if t == nil {
 			cfail("as: unknown type %s", id.Name)
 		}
+		if _, isIface := v.GT.Underlying().(*types.Interface); v.GT != nil && isIface {
+			// the pointer held by an interface value (a typed nil, -1, holds the nil pointer)
+			return CVal{T: tIte(Term{app("<", v.T.S, "0"), sBool}, tInt(0), v.T), GT: t}
+		}
 		return CVal{T: v.T, GT: t}
 	case "elems": // contents of a slice as a mathematical array (offset must be 0)
 		v := c.eval(x.Args[0])
@@ -561,7 +573,14 @@ func exprString(x Expr) string {
 		if x.Forall {
 			q = "forall"
 		}
-		return q + " " + strings.Join(x.Vars, ", ") + " :: " + exprString(x.Body)
+		var vs []string
+		for i, v := range x.Vars {
+			if i < len(x.Sorts) && x.Sorts[i] != "" {
+				v += ": " + x.Sorts[i]
+			}
+			vs = append(vs, v)
+		}
+		return q + " " + strings.Join(vs, ", ") + " :: " + exprString(x.Body)
 	case *ELet:
 		return "let " + x.Name + " = " + exprString(x.Val) + " in " + exprString(x.Body)
 	case *EUpd:
